@@ -26,6 +26,7 @@
  "tier": "wip",
  "harness": "h_raw_write",
  "enforce": ["raw_write_blk"],
+ "replace": ["memcpy", "memset"],
  "unwind": 24,
  "unwind_reason": "loop-free path (no alignment, no forced bounce: the bounce loop is dead); the bound only serves DFCC library loops",
  "defines": ["CFG_BS=1024", "CFG_ALIGN=0", "CFG_FORCE=0", "RAW_NO_CALL_EVENTS", "CFG_NO_PTHREAD"],
@@ -44,6 +45,7 @@
  "tier": "wip",
  "harness": "h_raw_write",
  "enforce": ["raw_write_blk"],
+ "replace": ["memcpy", "memset"],
  "loop_contracts": true,
  "unwind": 24,
  "unwind_reason": "the bounce loop is closed by its in-place loop contract; the bound only serves DFCC library loops",
@@ -63,6 +65,7 @@
  "tier": "wip",
  "harness": "h_raw_write",
  "enforce": ["raw_write_blk"],
+ "replace": ["memcpy", "memset"],
  "loop_contracts": true,
  "unwind": 24,
  "unwind_reason": "the bounce loop is closed by its in-place loop contract; the bound only serves DFCC library loops",
@@ -82,6 +85,7 @@
  "tier": "wip",
  "harness": "h_raw_write",
  "enforce": ["raw_write_blk"],
+ "replace": ["memcpy", "memset"],
  "loop_contracts": true,
  "unwind": 24,
  "unwind_reason": "the bounce loop is closed by its in-place loop contract; the bound only serves DFCC library loops",
@@ -101,6 +105,7 @@
  "tier": "wip",
  "harness": "h_raw_read",
  "enforce": ["raw_read_blk"],
+ "replace": ["memcpy", "memset"],
  "unwind": 24,
  "unwind_reason": "loop-free path (no alignment, no forced bounce); the bound only serves DFCC library loops",
  "defines": ["CFG_BS=1024", "CFG_ALIGN=0", "CFG_FORCE=0", "RAW_NO_CALL_EVENTS", "CFG_NO_PTHREAD"],
@@ -119,6 +124,7 @@
  "tier": "wip",
  "harness": "h_raw_read",
  "enforce": ["raw_read_blk"],
+ "replace": ["memcpy", "memset"],
  "loop_contracts": true,
  "unwind": 24,
  "unwind_reason": "the bounce loop is closed by its in-place loop contract; the bound only serves DFCC library loops",
@@ -138,6 +144,7 @@
  "tier": "wip",
  "harness": "h_raw_read",
  "enforce": ["raw_read_blk"],
+ "replace": ["memcpy", "memset"],
  "loop_contracts": true,
  "unwind": 24,
  "unwind_reason": "the bounce loop is closed by its in-place loop contract; the bound only serves DFCC library loops",
@@ -150,53 +157,102 @@
 }
 */
 
-/* ---- ghost state of the device model ---- */
+/* ---- ghost state of the device model: ONE object, so that it is one DFCC assigns target ---- */
+struct dev_model {
+	long long eof;		/* device size in bytes */
+	long long pos;		/* file position (lseek/read/write) */
+	long long log_off;	/* offset of the last positioned request (pread64/pwrite64/llseek) */
+	unsigned long log_len;	/* length of the last transfer request */
+	unsigned int npread, npwrite, nseek;
+	int err;		/* errno */
+	unsigned char disk;	/* device byte at L* */
+	unsigned char *btrack;	/* the byte of the bounce buffer that corresponds to L* in the current aligned unit (set by read()) */
+} GD;
+#define g_btrack GD.btrack
+const unsigned char *g_utrack;	/* the byte of the caller's buffer that corresponds to L* (0: request does not cover L*) */
+#define g_disk GD.disk
+#define g_eof GD.eof
+#define g_pos GD.pos
+#define g_log_off GD.log_off
+#define g_log_len GD.log_len
+#define g_npread GD.npread
+#define g_npwrite GD.npwrite
+#define g_nseek GD.nseek
+#define g_errno GD.err
 unsigned long long g_addr;	/* byte address of L* on the device */
-long long g_eof;		/* device size in bytes */
-long long g_pos;		/* file position (lseek/read/write) */
-long long g_log_off;		/* offset of the last positioned request (pread64/pwrite64/llseek) */
-unsigned long g_log_len;	/* length of the last transfer request */
-unsigned int g_npread, g_npwrite, g_nseek;
-int g_errno;
 unsigned char g_disk0;		/* device byte at L* on entry */
 /* entry values of raw_*_blk's byte cursor, for the loop invariants */
 long long g_loc0;
 long g_size0;
 const unsigned char *g_buf0;
 
-#define RAW_DEVICE_FRAME , g_pos, g_eof, g_log_off, g_log_len, g_npread, g_npwrite, g_nseek, g_errno; data->bounce != 0: __CPROVER_object_whole(data->bounce)
+#define RAW_DEVICE_FRAME , GD; data->bounce != 0: __CPROVER_object_whole(data->bounce)
+#define RAW_DEVICE_GHOST_IS_STRUCT
 #define IN_EXTRA long long eof, pos;
+#define CFG_OWN_MEMCPY
 
 /*
  * Invariants of the two bounce loops (expanded inside the real functions; size, buf, location, aligned_blk, align_size,
  * offset, actual, really_read are their variables).  [g_loc0, cur) is the part of the request already transferred.
  */
 #define DONE ((long long)(g_size0 - size))
+#define BTRACK_OK (g_btrack == 0 || (__CPROVER_same_object(g_btrack, data->bounce) && \
+	__CPROVER_POINTER_OFFSET(g_btrack) >= 0 && __CPROVER_POINTER_OFFSET(g_btrack) < align_size))
 #define POS_OK (g_pos >= 0 && g_pos < (1LL << 61) && g_eof >= 0 && g_eof < (1LL << 62))
 #define ADDR_IN(lo, hi) ((long long)g_addr >= (lo) && (long long)g_addr < (hi))
 #define VERIF_INV_RAW_WRITE_BLK_BOUNCE \
-	__CPROVER_assigns(size, buf, location, aligned_blk, offset, actual, retval, __CPROVER_object_whole(data->bounce), \
-		g_disk, g_pos, g_eof, g_log_off, g_log_len, g_nseek, g_errno) \
+	__CPROVER_assigns(size, buf, location, aligned_blk, offset, actual, retval, __CPROVER_object_whole(data->bounce), GD) \
 	__CPROVER_loop_invariant(0 <= size && size <= g_size0 && buf == g_buf0 + DONE && location == g_loc0 + DONE) \
 	__CPROVER_loop_invariant(0 <= offset && offset < align_size && (size == g_size0 || offset == 0)) \
 	__CPROVER_loop_invariant(size == 0 || (long long)(aligned_blk * align_size) + offset == location) \
-	__CPROVER_loop_invariant(POS_OK) \
+	__CPROVER_loop_invariant(POS_OK && BTRACK_OK) \
 	__CPROVER_loop_invariant(ADDR_IN(g_loc0, location) ? g_disk == g_buf0[(long long)g_addr - g_loc0] : g_disk == g_disk0) \
 	__CPROVER_loop_invariant((long long)g_addr < g_eof || g_disk == 0 || ADDR_IN(g_loc0, location)) \
 	__CPROVER_decreases(size)
 #define VERIF_INV_RAW_READ_BLK_BOUNCE \
 	__CPROVER_assigns(size, buf, aligned_blk, offset, actual, really_read, __CPROVER_object_whole(data->bounce), \
-		__CPROVER_object_whole(g_buf0), g_pos, g_log_len, g_errno) \
+		__CPROVER_object_whole(g_buf0), GD) \
 	__CPROVER_loop_invariant(0 <= size && size <= g_size0 && really_read == DONE && buf == g_buf0 + DONE) \
 	__CPROVER_loop_invariant(0 <= offset && offset < align_size && (size == g_size0 || offset == 0)) \
 	__CPROVER_loop_invariant(size == 0 || (long long)(aligned_blk * align_size) + offset == g_loc0 + DONE) \
-	__CPROVER_loop_invariant(POS_OK && g_pos == (long long)(aligned_blk * align_size)) \
+	__CPROVER_loop_invariant(POS_OK && BTRACK_OK && g_pos == (long long)(aligned_blk * align_size)) \
 	__CPROVER_loop_invariant(!ADDR_IN(g_loc0, g_loc0 + DONE) || g_buf0[(long long)g_addr - g_loc0] == g_disk) \
 	__CPROVER_loop_invariant(g_keep == 0 || *g_keep == g_keep0) \
+	__CPROVER_loop_invariant(g_disk == g_disk0) \
 	__CPROVER_decreases(size)
 unsigned char g_keep0;
 
 #include "cache_common.h"
+
+/*
+ * libc memcpy / memset as seen by the bounce-buffer paths (CBMC's own models take a symbolic length through array
+ * comprehensions, which made one loop step cost 8 minutes).  Source readable / destination writable are obligations at
+ * every call.  The copy is faithful at the two tracked addresses (true of memcpy at every address); the destination
+ * OBJECT is otherwise unconstrained afterwards, except that a tracked byte outside [dst, dst+n) keeps its value.
+ */
+#define P_OFF(p) __CPROVER_POINTER_OFFSET(p)
+#define P_IN(p, base, n) ((p) != 0 && __CPROVER_same_object((p), (base)) && P_OFF(p) >= P_OFF(base) && \
+	(unsigned long long)(P_OFF(p) - P_OFF(base)) < (unsigned long long)(n))
+#define P_OUT(p, base, n) ((p) != 0 && __CPROVER_same_object((p), (base)) && !(P_OFF(p) >= P_OFF(base) && \
+	(unsigned long long)(P_OFF(p) - P_OFF(base)) < (unsigned long long)(n)))
+#define AT(dst, p, src) (((unsigned char *)(dst))[P_OFF(p) - P_OFF(src)])
+void *memcpy(void *dst, const void *src, size_t n)
+	REQUIRES(__CPROVER_r_ok(src, n) && __CPROVER_w_ok(dst, n))
+	ASSIGNS(__CPROVER_object_whole(dst))
+	ENSURES(RET == dst)
+	ENSURES(!P_IN(g_utrack, src, n) || AT(dst, g_utrack, src) == *g_utrack)
+	ENSURES(!P_IN(g_btrack, src, n) || AT(dst, g_btrack, src) == *g_btrack)
+	ENSURES(!P_OUT(g_utrack, dst, n) || *g_utrack == OLD(*g_utrack))
+	ENSURES(!P_OUT(g_btrack, dst, n) || *g_btrack == OLD(*g_btrack))
+	ENSURES(!P_OUT(g_keep, dst, n) || *g_keep == OLD(*g_keep));
+void *memset(void *s, int c, size_t n)
+	REQUIRES(__CPROVER_w_ok(s, n))
+	ASSIGNS(__CPROVER_object_whole(s))
+	ENSURES(RET == s)
+	ENSURES(!P_IN(g_btrack, s, n) || *g_btrack == (unsigned char)c)
+	ENSURES(!P_OUT(g_btrack, s, n) || *g_btrack == OLD(*g_btrack))
+	ENSURES(!P_OUT(g_utrack, s, n) || *g_utrack == OLD(*g_utrack))
+	ENSURES(!P_OUT(g_keep, s, n) || *g_keep == OLD(*g_keep));
 
 /* ---- the system calls ---- */
 int *__errno_location(void) { return &g_errno; }
@@ -283,6 +339,8 @@ ssize_t read(int fd, void *buf, size_t n)
 		return -1;
 	}
 	r = (long long)n <= g_eof - g_pos ? (long)n : (g_eof > g_pos ? (long)(g_eof - g_pos) : 0);
+	/* the byte of the REQUESTED range that corresponds to L* (the caller may zero-fill it after a short read) */
+	g_btrack = ADDR_IN(g_pos, g_pos + (long long)n) ? (unsigned char *)buf + ((long long)g_addr - g_pos) : 0;
 	dev_read(buf, r, g_pos);
 	g_pos += r;
 	return r;
@@ -297,8 +355,8 @@ static void build_raw(unsigned long maxreq)
 {
 	struct unix_private_data *data = &DATA;
 	LOAD_IN();
-	memset(&CH, 0, sizeof(CH));
-	memset(&DATA, 0, sizeof(DATA));
+	CH = (struct struct_io_channel){ 0 };	/* (memset is replaced by its contract in these units) */
+	DATA = (struct unix_private_data){ 0 };
 	CH.magic = EXT2_ET_MAGIC_IO_CHANNEL;
 	CH.block_size = CFG_BS;
 	CH.align = CFG_ALIGN;
@@ -322,7 +380,7 @@ static void build_raw(unsigned long maxreq)
 	ASSUME(IN.eof >= 0 && IN.eof < (1LL << 61) && IN.pos >= 0 && IN.pos < (1LL << 61));
 	ASSUME((long long)g_addr < g_eof || g_disk == 0);	/* beyond the end of the device there are only zeroes to come */
 	g_disk0 = g_disk;
-	g_npread = g_npwrite = g_nseek = 0; g_errno = 0; g_keep = 0;
+	g_npread = g_npwrite = g_nseek = 0; g_errno = 0; g_keep = 0; g_btrack = 0; g_utrack = 0;
 	g_loc0 = (long long)(IN.block * CFG_BS) + IN.offset;
 	g_size0 = (long)WR_SIZE(&CH, IN.count);
 	ASSUME(IN.misalign < 8);
@@ -339,6 +397,7 @@ void h_raw_write(void)
 	if (covers) {
 		mine = IN.newbyte;
 		UOBJ[MARGIN + IN.misalign + OFF_AT(&CH, IN.block)] = mine;
+		g_utrack = &g_buf0[OFF_AT(&CH, IN.block)];
 	}
 	errcode_t r = raw_write_blk(&CH, &DATA, IN.block, IN.count, g_buf0, IN.which & RAW_WRITE_NO_HANDLER);
 	/* the request covers L* exactly when g_addr lies in [location, location+size): ties the (block, byte) view to byte addresses */
@@ -364,6 +423,7 @@ void h_raw_read(void)
 	g_keep = UOBJ + IN.which;
 	ASSUME(g_keep < g_buf0 || g_keep >= g_buf0 + g_size0);
 	UOBJ[IN.which] = IN.newbyte; g_keep0 = IN.newbyte;
+	g_utrack = covers ? &g_buf0[OFF_AT(&CH, IN.block)] : 0;
 	errcode_t r = raw_read_blk(&CH, &DATA, IN.block, IN.count, (void *)g_buf0);
 	CHECK(r != 0 || !covers || g_buf0[OFF_AT(&CH, IN.block)] == g_disk, "success: the buffer holds the device byte at L*");
 	CHECK(*g_keep == IN.newbyte, "nothing outside the caller's buffer range is written");
